@@ -336,6 +336,25 @@ theorem C11_users_exist_gate_on (st : StoreState) (n : Bool) (req : Req)
   subst this
   simp [authRequired, hn, hu]
 
+/-- Every configured user is kept by `InitAuth`, so after any start-up that goes
+on (gl-inet mode off) authentication is required exactly when the configured
+list is not empty — whatever the entries' password hashes look like. -/
+theorem C11_configured_users_all_kept {α : Type} (cfg : List α) :
+    initAuthUsers cfg = cfg ∧
+    ∀ (st : StoreState) (n : Bool) (req : Req), startup st = some n → req.authNil = n →
+      req.glMode = false → req.usersExist = usersExistAfter cfg →
+      (authRequired req = true ↔ cfg ≠ []) := by
+  refine ⟨rfl, fun st n req hs hn hg hu => ?_⟩
+  have := C11_startup_never_without_auth st n hs
+  subst this
+  cases cfg <;> simp [authRequired, hn, hg, hu, usersExistAfter, initAuthUsers]
+
+/-- The code as it is now: `InitAuth` puts its `users` parameter into the module
+unchanged and writes the field nowhere else (regenerated def-use fact). -/
+theorem C11_initauth_keeps_users :
+    Gen.authFacts.any (fun f => f.kind == .usersStoredAsGiven) = true := by
+  decide +kernel
+
 /-- The start-up code as it is now (regenerated facts): every assignment to
 `globalContext.auth` is the checked one from `initUsers` followed by
 `fatalOnError`, or the `nil` of the shutdown path after the web server is
